@@ -9,6 +9,9 @@ What is regenerated is the scalar logic that decides the retry budget and the la
                                     (must be: check; if any: if <test>: columns[mask] = self.sample_negatives(rows[mask],
                                      verify=True, rng=rng, max_attempts=<expr>, weighting=weighting) else: warn(DataWarning))
   sample_negatives (match stmt)  -> the population and column map of each weighting
+  sample_negatives (generator)   -> shape check only: ONE generator `g = random_generator(rng)`, every draw is g.choice,
+                                    `if verify:` hands g itself (never the caller's rng argument, which may be a seed) to
+                                    _check_negatives_and_resample for each output column, which forwards its parameter unchanged
 
 Anything else fails closed.
 """
@@ -203,8 +206,73 @@ def resample_defs(tree) -> str:
             f"Definition warn_on_exhaustion : bool := {'true' if warn else 'false'}.\n")
 
 
+def generator_name(f) -> str:
+    """The local name that holds THE generator of one sample_negatives call: the target of the single top-level
+    `<g> = random_generator(rng)`.  Every draw and every hand-over to the verification step must use this very name
+    (the model threads ONE draw stream through all retry levels); `rng` itself -- what the caller passed, perhaps a
+    seed -- may be used for nothing else unless it is the rebound name."""
+    params = [a.arg for a in f.args.args] + [a.arg for a in f.args.kwonlyargs]
+    if "rng" not in params:
+        fail(f, "sample_negatives has no rng parameter")
+    binds = [s for s in f.body if isinstance(s, ast.Assign) and is_call(s.value, "random_generator")]
+    nested = [n for n in ast.walk(f) if is_call(n, "random_generator")]
+    if len(binds) != 1 or len(nested) != 1:
+        fail(f, "sample_negatives does not create its generator by exactly one top-level `<g> = random_generator(rng)`")
+    b = binds[0]
+    if not (len(b.targets) == 1 and isinstance(b.targets[0], ast.Name) and len(b.value.args) == 1 and not b.value.keywords
+            and getattr(b.value.args[0], "id", None) == "rng"):
+        fail(b, "generator is not `<g> = random_generator(rng)`")
+    g = b.targets[0].id
+    for n in ast.walk(f):
+        if isinstance(n, ast.Name) and isinstance(n.ctx, ast.Store) and n.id in (g, "rng") and n is not b.targets[0]:
+            fail(n, f"{n.id} is bound a second time in sample_negatives")
+    if g != "rng":
+        # the caller's argument (possibly a seed) must not be used once the generator exists
+        for n in ast.walk(f):
+            if isinstance(n, ast.Name) and isinstance(n.ctx, ast.Load) and n.id == "rng" and n is not b.value.args[0]:
+                fail(n, f"the caller's `rng` argument is used again after the generator `{g}` was made from it: every retry "
+                        "level would build its own generator (a seed would be replayed at each level), the model threads ONE stream")
+    return g
+
+
+def verify_loop(f, g) -> str:
+    """after the match: `if verify:` hands (rows, columns | columns[:, c], max_attempts, <g>, weighting) to
+    _check_negatives_and_resample, once for n=None and once per output column otherwise."""
+    ifs = [s for s in f.body if isinstance(s, ast.If) and getattr(s.test, "id", None) == "verify"]
+    if len(ifs) != 1 or ifs[0].orelse:
+        fail(f, "sample_negatives has no single `if verify:` without else")
+    calls = [n for n in ast.walk(f) if is_call(n, "self._check_negatives_and_resample")]
+    inside = [n for n in ast.walk(ifs[0]) if is_call(n, "self._check_negatives_and_resample")]
+    if len(calls) != 2 or len(inside) != 2:
+        fail(ifs[0], "expected exactly two calls of self._check_negatives_and_resample, both under `if verify:`")
+    for c in calls:
+        if c.keywords or len(c.args) != 5:
+            fail(c, "verification call is not _check_negatives_and_resample(rows, <columns>, max_attempts, <generator>, weighting)")
+        a = c.args
+        if getattr(a[0], "id", None) != "rows" or getattr(a[2], "id", None) != "max_attempts" or getattr(a[4], "id", None) != "weighting":
+            fail(c, "verification call does not pass rows / max_attempts / weighting")
+        if getattr(a[3], "id", None) != g:
+            fail(c, f"verification call is handed `{ast.unparse(a[3])}`, not the generator `{g}` the initial draw came from "
+                    "(the model threads ONE draw stream through the initial draw and all retry levels)")
+    inner = ifs[0].body
+    if not (len(inner) == 1 and isinstance(inner[0], ast.If) and isinstance(inner[0].test, ast.Compare)
+            and ast.unparse(inner[0].test) == "n is None"):
+        fail(ifs[0], "`if verify:` is not `if n is None: <check> else: for c in range(n): <check column c>`")
+    one, many = inner[0].body, inner[0].orelse
+    if not (len(one) == 1 and isinstance(one[0], ast.Expr) and one[0].value in calls
+            and getattr(one[0].value.args[1], "id", None) == "columns"):
+        fail(inner[0], "n=None branch is not a single check of `columns`")
+    if not (len(many) == 1 and isinstance(many[0], ast.For) and not many[0].orelse
+            and ast.unparse(many[0].iter) == "range(n)" and isinstance(many[0].target, ast.Name)
+            and len(many[0].body) == 1 and isinstance(many[0].body[0], ast.Expr) and many[0].body[0].value in calls
+            and ast.unparse(many[0].body[0].value.args[1]) == f"columns[:, {many[0].target.id}]"):
+        fail(inner[0], "multi-column branch is not `for c in range(n): <check columns[:, c]>`")
+    return f"(* sample_negatives: one generator `{g} = random_generator(rng)`; every draw is {g}.choice, and `if verify:` hands {g} itself to the check of each output column *)\n"
+
+
 def weighting_defs(tree) -> str:
     f = pyq.find_def(tree, "MatrixRelationshipSet", "sample_negatives")
+    G = generator_name(f)
     ms = [s for s in f.body if isinstance(s, ast.Match)]
     if len(ms) != 1 or getattr(ms[0].subject, "id", None) != "weighting":
         fail(f, "sample_negatives has no single `match weighting`")
@@ -220,8 +288,8 @@ def weighting_defs(tree) -> str:
 
     def population(n):
         """n = rng.choice(<pop>, size=shape, replace=True)"""
-        if not (is_call(n, "rng.choice", 1)):
-            fail(n, "draw is not rng.choice(<population>, ...)")
+        if not (is_call(n, G + ".choice", 1)):
+            fail(n, f"draw is not {G}.choice(<population>, ...) on the generator `{G} = random_generator(rng)`")
         kw = {k.arg: k.value for k in n.keywords}
         if set(kw) != {"size", "replace"} or getattr(kw["size"], "id", None) != "shape" \
                 or not (isinstance(kw["replace"], ast.Constant) and kw["replace"].value is True):
@@ -233,6 +301,11 @@ def weighting_defs(tree) -> str:
             return "PopRecords"
         fail(n, f"unknown population {d}")
 
+    draws = [n for n in ast.walk(f) if isinstance(n, ast.Call) and isinstance(n.func, ast.Attribute)
+             and getattr(n.func.value, "id", None) in (G, "rng")]
+    in_match = [n for n in ast.walk(ms[0]) if n in draws]
+    if len(draws) != len(in_match):
+        fail(f, "the generator is used outside `match weighting`")
     out = {}
     for case in ms[0].cases:
         if case.guard is not None:
@@ -269,7 +342,7 @@ def weighting_defs(tree) -> str:
     if set(out) != {"uniform", "popular", "popularity"} or out["popular"] != out["popularity"]:
         fail(ms[0], f"unexpected weighting names {sorted(out)}")
     # after the match: columns = np.require(columns, "i4"), then the verify loop over columns
-    return ("(* sample_negatives, `match weighting` *)\n"
+    return (verify_loop(f, G) + "(* sample_negatives, `match weighting` *)\n"
             f"Definition uniform_population : population := {out['uniform'][0]}.\n"
             f"Definition uniform_colmap : colmap := {out['uniform'][1]}.\n"
             f"Definition popular_population : population := {out['popular'][0]}.\n"
